@@ -89,6 +89,7 @@ func init() {
 		c.Out.Assume = []string{"fake origin behind the real upstream object (elton's proxy/transport not in the loop; see C19/C16 for the real proxy)"}
 		st := c.Stat("transparency", "enumeration")
 		if !c.Want("transparency") {
+			c15Mix(c)
 			return
 		}
 		queries := []string{"", "a=1", "b=2&a=1", "a=", "a=1&a=2", "q=%20+x"}
@@ -311,5 +312,121 @@ func init() {
 		}
 		st.States, st.Transitions, st.Nontrivial = st.Execs, st.Execs, st.Execs
 		st.NOutcomes = int(st.Execs)
+		c15Mix(c)
 	})
+}
+
+func c15Mix(c *Ctx) {
+	// several locations with their own additions on one server: a request gets the additions of ITS location only
+	if c.Want("locations-do-not-mix") && c.Shard == 0 {
+		st2 := c.Stat("locations-do-not-mix", "enumeration")
+		type lcfg struct {
+			Prefix             string
+			ReqH, RespH, Query []string
+		}
+		ls := []lcfg{
+			{"/one", []string{"X-Req:one"}, []string{"X-Resp:one"}, []string{"k1:v1"}},
+			{"/two", []string{"X-Req:two", "X-Two:2"}, []string{"X-Resp:two", "X-Two-Resp:2"}, []string{"k2:v2", "token:t2"}},
+			{"/three", nil, nil, nil},
+			{"/four", []string{"X-Four:4"}, nil, []string{"k4:v4"}},
+		}
+		st2.Bounds = "4 locations (3 with their own added request headers / response headers / query parameters) on one server, every order of configuration (24), 5 methods x 3 client queries x every location"
+		perm := [][]int{}
+		var rec func(cur []int, used int)
+		rec = func(cur []int, used int) {
+			if len(cur) == len(ls) {
+				perm = append(perm, append([]int(nil), cur...))
+				return
+			}
+			for i := range ls {
+				if used&(1<<uint(i)) == 0 {
+					rec(append(cur, i), used|1<<uint(i))
+				}
+			}
+		}
+		rec(nil, 0)
+		for pi, pm := range perm {
+			cfg := env.BasicConfig(config.CacheConfig{})
+			cfg.Locations = nil
+			cfg.Servers[0].Locations = nil
+			for _, i := range pm {
+				name := fmt.Sprintf("L%d", i)
+				cfg.Locations = append(cfg.Locations, config.LocationConfig{Name: name, Upstream: "up", Prefixes: []string{ls[i].Prefix}, ReqHeaders: ls[i].ReqH, RespHeaders: ls[i].RespH, QueryStrings: ls[i].Query})
+				cfg.Servers[0].Locations = append(cfg.Servers[0].Locations, name)
+			}
+			e := getEnv(cfg, fmt.Sprintf("c15-mix-%d", pi))
+			e.Respond = c15Origin(false)
+			for _, m := range []string{"GET", "HEAD", "POST", "PUT", "DELETE"} {
+				for _, q := range []string{"", "a=1", "k1=client&k2=client"} {
+					for i, l := range ls {
+						freshCaches(cfg)
+						uri := l.Prefix + "/x"
+						if q != "" {
+							uri += "?" + q
+						}
+						e.Events()
+						r := e.Do(env.Req{Method: m, URI: uri, Rid: "r"})
+						an := analyze(e.Events())
+						st2.Execs++
+						kase := map[string]interface{}{"order": pm, "method": m, "uri": uri}
+						viol := func(sig, msg string) {
+							c.Violation("locations-do-not-mix", sig, fmt.Sprintf("%s %s (locations configured in order %v): %s", m, uri, pm, msg), nil, kase, nil)
+						}
+						calls := an.Reqs["r"].Calls
+						if len(calls) != 1 || r.Status != 200 {
+							viol(fmt.Sprintf("origin-contacts-%d", len(calls)), fmt.Sprintf("status %d", r.Status))
+							continue
+						}
+						want := q
+						for _, kv := range l.Query {
+							p := strings.SplitN(kv, ":", 2)
+							if want != "" {
+								want += "&"
+							}
+							want += p[0] + "=" + p[1]
+						}
+						if multiset(calls[0].RawQuery) != multiset(want) {
+							viol("query-not-as-configured", fmt.Sprintf("origin saw %q, expected the parameters of %q", calls[0].RawQuery, want))
+						}
+						for j, o := range ls {
+							for _, kv := range o.ReqH {
+								p := strings.SplitN(kv, ":", 2)
+								got := calls[0].Header.Values(p[0])
+								own := false
+								for _, kv2 := range l.ReqH {
+									if strings.HasPrefix(kv2, p[0]+":") {
+										own = true
+									}
+								}
+								if j == i && strings.Join(got, ",") != p[1] {
+									viol("added-request-header-missing", fmt.Sprintf("%s: %q", p[0], got))
+								}
+								if j != i && !own && len(got) != 0 {
+									viol("request-header-of-another-location", fmt.Sprintf("origin saw %s: %q, which only location %s adds", p[0], got, o.Prefix))
+								}
+							}
+							for _, kv := range o.RespH {
+								p := strings.SplitN(kv, ":", 2)
+								got := r.Header.Values(p[0])
+								own := false
+								for _, kv2 := range l.RespH {
+									if strings.HasPrefix(kv2, p[0]+":") {
+										own = true
+									}
+								}
+								if j == i && strings.Join(got, ",") != p[1] {
+									viol("added-response-header-missing", fmt.Sprintf("%s: %q", p[0], got))
+								}
+								if j != i && !own && len(got) != 0 {
+									viol("response-header-of-another-location", fmt.Sprintf("client saw %s: %q, which only location %s adds", p[0], got, o.Prefix))
+								}
+							}
+						}
+					}
+				}
+			}
+		}
+		st2.States, st2.Transitions, st2.Nontrivial = st2.Execs, st2.Execs, st2.Execs
+		st2.NOutcomes = int(st2.Execs)
+	}
 }
